@@ -75,14 +75,71 @@ func Compare(a, b any) int {
 }
 
 func Cmp[T int | int32 | int64 | int16 | int8 | uint | uint32 | uint64 | uint16 | byte | float32 | float64](a T, b any) int {
-	v := As[T](b)
-	if a == v {
+	// b must not be converted to the type of a: that would truncate fractions
+	// and wrap negative numbers into unsigned types
+	aNeg, aMag, aOk := intParts(a)
+	bNeg, bMag, bOk := intParts(b)
+	if aOk && bOk {
+		switch {
+		case aNeg != bNeg:
+			{
+				if aNeg {
+					return -1
+				}
+				return 1
+			}
+		case aMag == bMag:
+			{
+				return 0
+			}
+		case (aMag > bMag) != aNeg:
+			{
+				return 1
+			}
+		}
+		return -1
+	}
+	x, y := As[float64](a), As[float64](b)
+	if x == y {
 		return 0
 	}
-	if a > v {
+	if x > y {
 		return 1
 	}
 	return -1
+}
+
+// intParts splits an integer of any kind into sign and magnitude
+func intParts(v any) (bool, uint64, bool) {
+	signed := func(n int64) (bool, uint64, bool) {
+		if n < 0 {
+			return true, -uint64(n), true
+		}
+		return false, uint64(n), true
+	}
+	switch t := v.(type) {
+	case int:
+		return signed(int64(t))
+	case int64:
+		return signed(t)
+	case int32:
+		return signed(int64(t))
+	case int16:
+		return signed(int64(t))
+	case int8:
+		return signed(int64(t))
+	case uint:
+		return false, uint64(t), true
+	case uint64:
+		return false, t, true
+	case uint32:
+		return false, uint64(t), true
+	case uint16:
+		return false, uint64(t), true
+	case byte:
+		return false, uint64(t), true
+	}
+	return false, 0, false
 }
 
 func As[T int | int32 | int64 | int16 | int8 | uint | uint32 | uint64 | uint16 | byte | float32 | float64](v any) T {
